@@ -26,6 +26,10 @@ pub enum Op {
     Poke { idx: usize, val: u8 },
     /// continue on a clone of the cursor
     CloneSelf,
+    /// provided methods (std compositions of read / write unless the cursor overrides them)
+    ReadExact { len: usize },
+    WriteAll { len: usize, salt: u8 },
+    ReadToEnd,
 }
 
 #[derive(Clone, Debug, Serialize, Deserialize)]
@@ -54,7 +58,7 @@ fn gen_case_n(r: &mut Rng, max_ops: u64) -> Case {
     let (mut pos, mut len): (u64, u64) = (0, 0);
     let mut first = true;
     while ops.len() < nops {
-        let mut k = r.below(11);
+        let mut k = r.below(14);
         if first && past_end_bias {
             k = if r.chance(1, 2) { 6 } else { 3 };
         }
@@ -108,11 +112,14 @@ fn gen_case_n(r: &mut Rng, max_ops: u64) -> Case {
                     Op::Poke { idx: r.next() as usize, val: r.next() as u8 }
                 }
             }
-            _ => Op::CloneSelf,
+            9 => Op::CloneSelf,
+            11 => Op::ReadExact { len: *r.pick(&[0usize, 1, 3, 8, 17, 100, 3000]) },
+            12 => Op::WriteAll { len: *r.pick(&WLENS), salt: r.next() as u8 },
+            _ => Op::ReadToEnd,
         };
         // update the shadow roughly (exact values are irrelevant; only used to aim arguments)
         match &op {
-            Op::Write { len: l, .. } => {
+            Op::Write { len: l, .. } | Op::WriteAll { len: l, .. } => {
                 if pos.saturating_add(*l as u64) <= WRITE_LIMIT {
                     if pos > len || *l > 0 {
                         len = len.max(pos + *l as u64);
@@ -272,6 +279,72 @@ fn exec_typed<T: Alignment>(case: &Case) -> Result<Exec, Violation> {
             Op::CloneSelf => {
                 cur = cur.clone();
             }
+            Op::ReadExact { len } => {
+                let mut bm = vec![0u8; *len];
+                let mut bc = vec![0u8; *len];
+                let rm = model.read_exact(&mut bm);
+                let rc = catch(|| cur.read_exact(&mut bc)).map_err(|p| fail("panic", format!("AlignedCursor::read_exact panicked ({})", p)))?;
+                match (&rm, &rc) {
+                    (Ok(()), Ok(())) => {
+                        if bm != bc {
+                            return Err(fail("contents-mismatch", "read_exact returned different bytes".to_string()));
+                        }
+                        h.u64(0xA0).bytes(&bm);
+                    }
+                    (Err(_), Err(_)) if ioerr_kind(&rm) == ioerr_kind(&rc) => {
+                        // after a *failed* read_exact std documents the buffer and position as unspecified (std's own
+                        // cursor and the default implementation differ): not compared; both continue from the model's
+                        cur.set_position(model.position() as usize);
+                        h.u64(0xA1);
+                    }
+                    _ => return Err(fail("result-mismatch", format!("read_exact: model {:?}, cursor {:?}", rm, rc))),
+                }
+            }
+            Op::WriteAll { len, salt } => {
+                let mpos = model.position();
+                // an *empty* write_all is a no-op in the trait's default implementation (it never calls `write`),
+                // while std's cursor specialises it and pads: a corner of std's specialisation, not of the cursor
+                // under test; not executed
+                if *len == 0 || mpos.saturating_add(*len as u64) > WRITE_LIMIT {
+                    ex.skipped += 1;
+                    h.u64(0xEE);
+                    continue;
+                }
+                let buf: Vec<u8> = (0..*len).map(|j| (i as u8).wrapping_mul(29).wrapping_add((j as u8).wrapping_mul(11)).wrapping_add(*salt) | 1).collect();
+                if mpos > model.get_ref().len() as u64 {
+                    ex.wrote_past_end = true;
+                }
+                let rm = model.write_all(&buf);
+                let rc = catch(|| cur.write_all(&buf)).map_err(|p| fail("panic", format!("AlignedCursor::write_all panicked ({}); std cursor returned {:?}", p, rm)))?;
+                match (&rm, &rc) {
+                    (Ok(()), Ok(())) => {
+                        h.u64(0xA2);
+                    }
+                    (Err(_), Err(_)) if ioerr_kind(&rm) == ioerr_kind(&rc) => {
+                        h.u64(0xA3);
+                    }
+                    _ => return Err(fail("result-mismatch", format!("write_all: model {:?}, cursor {:?}", rm, rc))),
+                }
+            }
+            Op::ReadToEnd => {
+                let mut vm = Vec::new();
+                let mut vc = Vec::new();
+                let rm = model.read_to_end(&mut vm);
+                let rc = catch(|| cur.read_to_end(&mut vc)).map_err(|p| fail("panic", format!("AlignedCursor::read_to_end panicked ({})", p)))?;
+                match (&rm, &rc) {
+                    (Ok(a), Ok(b)) if a == b => {
+                        if vm != vc {
+                            return Err(fail("contents-mismatch", "read_to_end returned different bytes".to_string()));
+                        }
+                        h.u64(0xA4).u64(*a as u64);
+                    }
+                    (Err(_), Err(_)) if ioerr_kind(&rm) == ioerr_kind(&rc) => {
+                        cur.set_position(model.position() as usize);
+                        h.u64(0xA5);
+                    }
+                    _ => return Err(fail("result-mismatch", format!("read_to_end: model {:?}, cursor {:?}", rm, rc))),
+                }
+            }
         }
         // cross-invariants after every step
         if cur.position() as u64 != model.position() {
@@ -374,6 +447,9 @@ pub fn run_unit(ctx: &mut Ctx, unit: u64) {
                             Op::Accessors => 9,
                             Op::Poke { .. } => 10,
                             Op::CloneSelf => 11,
+                            Op::ReadExact { .. } => 12,
+                            Op::WriteAll { len, .. } => 13 + ((*len == 0) as u64) * 16,
+                            Op::ReadToEnd => 14,
                         });
                     }
                     ctx.aux.insert(h.get());
@@ -429,6 +505,8 @@ pub fn shrink(case: &serde_json::Value) -> Vec<serde_json::Value> {
             Op::Write { len, salt } if *len > 1 => Some(Op::Write { len: len / 2, salt: *salt }),
             Op::Write { len, salt } if *len == 1 && *salt != 0 => Some(Op::Write { len: 1, salt: 0 }),
             Op::Read { len } if *len > 1 => Some(Op::Read { len: len / 2 }),
+            Op::ReadExact { len } if *len > 1 => Some(Op::ReadExact { len: len / 2 }),
+            Op::WriteAll { len, salt } if *len > 1 => Some(Op::WriteAll { len: len / 2, salt: *salt }),
             Op::SetPos(n) if *n > 1 => Some(Op::SetPos(n / 2)),
             Op::SeekStart(n) if *n > 1 => Some(Op::SeekStart(n / 2)),
             Op::SeekCur(n) if *n > 1 || *n < -1 => Some(Op::SeekCur(n / 2)),
